@@ -583,8 +583,8 @@ package database
 
 // fuzzyFind: the matcher's (assumed) contract carried through the NUL sanitisation; that the
 // sanitised targets are NUL-free, and the matcher safe on them, is validated bounded (axcheck).
-//@ axiom nul-index forall s string :: strings.IndexByte(s, 0) < 0 ==> nulFree(s)
-//@ axiom nul-replaced forall s string :: nulFree(strings.ReplaceAll(s, "\x00", " "))
+//@ local-axiom nul-index forall s string :: strings.IndexByte(s, 0) < 0 ==> nulFree(s)
+//@ local-axiom nul-replaced forall s string :: nulFree(strings.ReplaceAll(s, "\x00", " "))
 //@ func fuzzyFind
 //@   modifies targets[*]
 //@   ensures[C07.fuzzy-find] fresh(result) && (forall k int :: 0 <= k && k < len(result) ==> 0 <= result[k].Index && result[k].Index < len(targets))
